@@ -525,11 +525,9 @@ class Parser:
     ) -> ast.Constant | ast.JoinedStr | ast.Call:
         """Concatenate multiple tokens and ast.JoinedStr"""
         # Get proper start and stop
-        start = end = None
-        if isinstance(parts[0], ast.JoinedStr):
-            start = parts[0].lineno, parts[0].col_offset
-        if isinstance(parts[-1], ast.JoinedStr):
-            end = parts[-1].end_lineno, parts[-1].end_col_offset
+        first, last = parts[0], parts[-1]
+        start = (first.lineno, first.col_offset) if isinstance(first, ast.JoinedStr) else first.start
+        end = (last.end_lineno, last.end_col_offset) if isinstance(last, ast.JoinedStr) else last.end
 
         # Combine the different parts
         seen_joined = False
@@ -556,6 +554,9 @@ class Parser:
         if seen_joined and any(isinstance(v, ast.Constant) and isinstance(v.value, bytes) for v in values):
             self.raise_syntax_error_known_range("cannot mix bytes and nonbytes literals", parts[0], parts[-1])
 
+        if seen_joined:  # an empty plain literal next to an f-string contributes nothing (as in CPython)
+            values = [v for v in values if not (isinstance(v, ast.Constant) and v.value == "")]
+
         consolidated: list[Any] = []  # ast.Constant | ast.FormattedValue
         for p in values:
             if consolidated and isinstance(consolidated[-1], ast.Constant) and isinstance(p, ast.Constant):
@@ -570,10 +571,10 @@ class Parser:
         else:
             node = ast.JoinedStr(
                 values=consolidated,
-                lineno=start[0] if start else values[0].lineno,
-                col_offset=start[1] if start else values[0].col_offset,
-                end_lineno=end[0] if end else values[-1].end_lineno,
-                end_col_offset=end[1] if end else values[-1].end_col_offset,
+                lineno=start[0],
+                col_offset=start[1],
+                end_lineno=end[0],
+                end_col_offset=end[1],
             )
 
         if path_tok or self._path_token:
